@@ -246,11 +246,21 @@ where
 
         // pruning
         if at_window_end {
+            #[cfg(feature = "verif_hooks")]
+            let verif_before = self.known.len();
             self.known = self
                 .known
                 .drain()
                 .filter(|(_k, v)| v.f + v.delta > b_current)
                 .collect();
+            #[cfg(feature = "verif_hooks")]
+            {
+                crate::verif::hit(crate::verif::Event::LossyPrune);
+                crate::verif::gauge_max(
+                    crate::verif::Event::LossyPrunedMax,
+                    verif_before - self.known.len(),
+                );
+            }
         }
 
         was_new
